@@ -103,7 +103,7 @@ def run(specs, workdir, tier):
     p = subprocess.run(cmd, cwd=KDIR, env=_env(), capture_output=True, text=True)
     dt = time.time() - t0
     out = p.stdout + '\n' + p.stderr
-    with open(os.path.join(workdir, 'kani.log'), 'w') as f:
+    with open(os.path.join(workdir, 'kani_%s.log' % specs[0]['crate']), 'w') as f:
         f.write(out)
     parsed = parse(out)
     results = []
